@@ -329,9 +329,15 @@ def main(argv):
                     continue
                 st = corr.run_streams(w['ops'])
                 # a finding shared with other properties keeps ONE witness, on the core that shows it
-                # most directly; on a core this property does not own, the lines are judged literally
+                # most directly; on a core this property does not own, the lines are judged by an owner's oracle
                 def worc(op, x, y):
-                    return prop.oracle(op, x, y) if op.split()[0] in prop.cores else eq_lines(op, x, y)
+                    core = op.split()[0]
+                    if core in prop.cores:
+                        return prop.oracle(op, x, y)
+                    for q in PROPS.values():   # the oracle of a property that owns that core
+                        if core in q.cores:
+                            return q.oracle(op, x, y)
+                    return eq_lines(op, x, y)
                 dev = [i for i in range(len(w['ops'])) if i >= len(st.impl) or
                        not worc(w['ops'][i], st.impl[i], st.spec[i])]
                 if e.get('status') == 'open':
